@@ -462,6 +462,35 @@ def gen_workspace(rng, unique=False, multi=None):
     return out
 
 
+def gen_twin_workspace(rng):
+    """two or three files whose uses of a global sit at IDENTICAL line/column in different files (the global is
+    defined in one file only): position-keyed bookkeeping that forgets the file name shows up here"""
+    g = rng.choice(GLOBALS)
+    fill = ["local zq = 1", "use(1)", "do end", "local function hh() end", ""]
+    nlines = rng.choice([2, 3, 4])
+    k = rng.randrange(1, nlines + 1)
+    ind = " " * rng.choice([0, 0, 2, 4])
+    call = rng.choice(UNDEF)
+    use_line = ind + "%s(%s + 1)" % (call, g) if rng.random() < 0.5 else ind + "%s(%s)" % (call, g)
+    out = []
+    for fi, fn in enumerate(["a.lua", "b.lua", "sub/c.lua"][:rng.choice([2, 2, 3])]):
+        lines = [rng.choice(fill) for _ in range(nlines + 1)]
+        if fi == 0:
+            lines[0] = "%s = 1" % g
+        else:
+            lines[0] = rng.choice(["local zq = 2", "use(2)"])
+        lines[k] = use_line
+        if rng.random() < 0.5:
+            lines.append(use_line)
+        text = "\n".join(lines) + "\n"
+        pos = []
+        for li, ln in enumerate(text.split("\n")):
+            for m in IDENT_RE.finditer(ln):
+                pos.append((m.group(0), li, m.start()))
+        out.append((fn, text, ident_positions(pos)))
+    return out
+
+
 def cursor_steps(ops, ws, rng, both_ends=True, newname="zz9", docend=True):
     steps = []
     for fi, (fn, text, ids) in enumerate(ws):
